@@ -5,6 +5,7 @@ from . import tables
 from .common import where, short
 
 LEVEL = "other"
+CFGS_THOROUGH = ["A", "B", "D", "E"]  # hfs (cfg C) is analysed separately: see DESIGN.md F6
 EXPLANATION = (
     "Decided clause: every panic-capable MIR site in snow's own code (overflow/bounds Assert terminators, range and "
     "integer indexing, copy_from_slice, unwrap/expect, explicit panics/assert!/unreachable!) is discharged by lenproof — "
